@@ -1221,7 +1221,7 @@ func run(c *lib.Ctx) {
 		"error values returned by Delete/Write for absent keys are not compared (not part of the statement)",
 		"Next on an invalid iterator is compared on memdb/goleveldb (must stay invalid) and not executed on badger (nil item dereference in the library)",
 		"empty keys are not written (badger rejects them)")
-	n := c.N(100, 2000)
+	n := c.N(100, 1500)
 	maxOps := 600
 	if !c.Quick() {
 		maxOps = 2000
